@@ -5,5 +5,5 @@ package hx
 const OrderControlled = false
 
 func setChooser(m interface{}, c func(keys []string) []int) {}
-func HookCalls() uint64                                       { return 0 }
-func SetPointFn(f func(label string))                         {}
+func HookCalls() uint64                                     { return 0 }
+func SetPointFn(f func(label string))                       {}
